@@ -118,13 +118,16 @@ func Template(kind int, seed int64, cfg *Config) *Program {
 		p.Pipelines = []*Pipeline{leaf, mid, top}
 	case 3:
 		// preflights in outer and inner pipelines
-		inner := &Pipeline{Name: "INNER", Ins: []Param{{Name: "a", Type: T}}, Outs: []Param{{Name: "y", Type: TInt}},
+		// (FREE has no data dependency at all: only the enclosing pipelines'
+		// preflights hold it back)
+		inner := &Pipeline{Name: "INNER", Ins: []Param{{Name: "a", Type: T}}, Outs: []Param{{Name: "y", Type: TInt}, {Name: "n", Type: TInt}},
 			Calls: []*Call{
 				{Callee: "CHK", Alias: "PRE_IN", Preflight: true, Binds: []Binding{{Id: "v", Exp: lit(s2)}}},
 				{Callee: "USE", Binds: []Binding{{Id: "x", Exp: self("a")}}},
+				{Callee: "NOP", Alias: "FREE"},
 			},
-			Ret: []Binding{{Id: "y", Exp: ref("USE", "y")}}}
-		top := &Pipeline{Name: "TOP", Ins: []Param{{Name: "v", Type: TInt}}, Outs: []Param{{Name: "y", Type: TInt}, {Name: "n", Type: TInt}},
+			Ret: []Binding{{Id: "y", Exp: ref("USE", "y")}, {Id: "n", Exp: ref("FREE", "n")}}}
+		top := &Pipeline{Name: "TOP", Ins: []Param{{Name: "v", Type: TInt}}, Outs: []Param{{Name: "y", Type: TInt}, {Name: "n", Type: TInt}, {Name: "m", Type: TInt}},
 			Calls: []*Call{
 				{Callee: "CHK", Alias: "PRE_OUT", Preflight: true, Local: g.pct(50), Binds: []Binding{{Id: "v", Exp: self("v")}}},
 				{Callee: "CHK", Alias: "PRE_B", Preflight: true, Binds: []Binding{{Id: "v", Exp: lit(s1)}}},
@@ -132,7 +135,7 @@ func Template(kind int, seed int64, cfg *Config) *Program {
 				{Callee: "GEN", Binds: []Binding{{Id: "seed", Exp: lit(s1)}}},
 				{Callee: "INNER", Binds: []Binding{{Id: "a", Exp: ref("GEN", "one")}}},
 			},
-			Ret: []Binding{{Id: "y", Exp: ref("INNER", "y")}, {Id: "n", Exp: ref("NOP", "n")}}}
+			Ret: []Binding{{Id: "y", Exp: ref("INNER", "y")}, {Id: "n", Exp: ref("NOP", "n")}, {Id: "m", Exp: ref("INNER", "n")}}}
 		p.Pipelines = []*Pipeline{inner, top}
 		p.Top = &Call{Callee: "TOP", Binds: []Binding{{Id: "v", Exp: lit(7)}}}
 	case 4:
